@@ -517,10 +517,21 @@ impl<R: Read> BufRead for StreamBufferedReader<R> {
 
 impl<R: Read + Seek> Seek for StreamBufferedReader<R> {
     fn seek(&mut self, pos: SeekFrom) -> io::Result<u64> {
+        // The inner reader is ahead of the logical position by the buffered bytes
+        let buffered = (self.end - self.pos) as i64;
         // For seek operations, we need to invalidate the buffer
         self.pos = 0;
         self.end = 0;
-        self.inner.seek(pos)
+        match pos {
+            SeekFrom::Current(n) => match n.checked_sub(buffered) {
+                Some(adjusted) => self.inner.seek(SeekFrom::Current(adjusted)),
+                None => {
+                    self.inner.seek(SeekFrom::Current(-buffered))?;
+                    self.inner.seek(SeekFrom::Current(n))
+                }
+            },
+            other => self.inner.seek(other),
+        }
     }
 }
 
